@@ -83,3 +83,56 @@ def throwing_stmt(g):
     if fv is not None:
         return "print(%s);" % g.call_of(fv, 1)
     return "throw %s;" % r.choice(THROWABLES)
+
+
+def s_tryfn(g, depth):
+    """a function whose body is a try statement with every exit path selectable by its argument,
+    called once per path"""
+    r = g.r
+    name = g.fresh("tf")
+    tag = g.counter
+    has_catch = r.chance(50)
+    has_finally = (not has_catch) or r.chance(70)
+    inner = r.chance(60)
+    inner_catch = r.chance(70)
+    inner_finally = (not inner_catch) or r.chance(40)
+    L = ["fn %s(a) {" % name, "    print(\"enter %d\");" % tag, "    var local = a + 100;", "    try {"]
+    if r.chance(50):
+        L.append("        print(\"try start\");")
+    if inner:
+        L.append("        try {")
+        L.append("            if a == 1 { throw \"i1\"; }")
+        if r.chance(40):
+            L.append("            if a == 4 { print(nil + 1); }")
+        L.append("            print(\"inner ok\");")
+        if inner_catch:
+            L.append("        } catch ei {")
+            L.append("            print(\"inner caught ${ei}\");")
+        if inner_finally:
+            L.append("        } finally {")
+            L.append("            print(\"inner finally\");")
+        L.append("        }")
+    L.append("        if a == 2 { throw \"t2\"; }")
+    if r.chance(50):
+        L.append("        if a == 5 { print([1][7]); }")
+    can_return = has_finally and allowed(g, "exc.return_in_try_with_finally")
+    if not has_finally and allowed(g, "exc.return_in_try_no_finally"):
+        can_return = True
+    if can_return:
+        L.append("        if a == 3 { return \"r3 ${local}\"; }")
+    L.append("        print(\"try end ${local}\");")
+    if has_catch:
+        L.append("    } catch e {")
+        L.append("        print(\"caught ${e} ${local}\");")
+    if has_finally:
+        L.append("    } finally {")
+        L.append("        print(\"finally %d\");" % tag)
+    L.append("    }")
+    L.append("    print(\"after try ${local}\");")
+    L.append("    return \"end %d\";" % tag)
+    L.append("}")
+    g.declare(name, "fn:1", const=True)
+    args = r.sample([0, 1, 2, 3, 4, 5], r.range(2, 5))
+    for a in args:
+        L.append("try { print(%s(%d)); } catch ex { print(\"escaped\"); print(type(ex)); }" % (name, a))
+    return L
